@@ -53,7 +53,7 @@ out.append("Produced by fresh sub-agents that were given only the property text 
 out.append("| seeded change | needs to manifest | tests pass | check result |\n|---|---|---|---|")
 for m in sorted((V / "seeded").glob("*/meta.json")):
     j = json.loads(m.read_text())
-    res = "VIOLATION with concrete input" if j.get("detected_with_concrete_input") else ("VIOLATION (no-failing-input-found)" if j.get("detected") else "**missed**")
+    res = ("obsolete: " + j["obsolete"]) if j.get("obsolete") else "VIOLATION with concrete input" if j.get("detected_with_concrete_input") else ("VIOLATION (no-failing-input-found)" if j.get("detected") else "**missed**")
     out.append(f"| {m.parent.name}: {j.get('summary', '')} | {j.get('needs', '')} | {j.get('tests_result', 'n/a')} | {res} ({j.get('check_s', '?')} s) |")
 extra = D / "99_seed_notes.md"
 if extra.exists():
